@@ -91,6 +91,11 @@ struct ObsState {
     last_stored: Option<BTreeSet<u64>>,
     last_pruned: Option<BTreeSet<u64>>,
     max_told: u64,
+    /// highest head the syncer has certainly taken notice of (head-request answers, the head
+    /// of a header-sub initialisation, gossip delivered after the last fault, and whatever its
+    /// own batches and header-sub insertions show); a gossip message handed over just before a
+    /// disconnection may be dropped unread, so `max_told` is only an upper bound
+    sure_head: u64,
     announced: Vec<(u64, u64)>,
     batches: u64,
     // ---- daser's view (this epoch)
@@ -139,6 +144,12 @@ impl Obs {
         st.max_told = st.max_told.max(h);
     }
 
+    fn sure(&self, h: u64) {
+        let mut st = self.st.lock().unwrap();
+        st.max_told = st.max_told.max(h);
+        st.sure_head = st.sure_head.max(h);
+    }
+
     fn drain_events(&self) {
         let mut st = self.st.lock().unwrap();
         // once the power is lost nothing the dying process still says is judged
@@ -162,6 +173,7 @@ impl Obs {
         match ev {
             NodeEvent::FetchingHeadersStarted { from_height, to_height } => {
                 ctx.ev("ev.fetch_started", from_height, to_height);
+                st.sure_head = st.sure_head.max(to_height);
                 self.check_batch(st, from_height, to_height, at_ns);
             }
             NodeEvent::FetchingHeadersFinished { from_height, to_height, .. } => {
@@ -188,6 +200,7 @@ impl Obs {
             }
             NodeEvent::AddedHeaderFromHeaderSub { height } => {
                 ctx.ev("ev.added_from_header_sub", height, 0);
+                st.sure_head = st.sure_head.max(height);
             }
             NodeEvent::SamplingStarted { height, shares, .. } => {
                 ctx.ev("ev.sampling_started", height, shares.len() as u64);
@@ -572,7 +585,7 @@ impl Net {
                     (origin..=hi).map(|h| to_resp(self.chain.get(h))).collect()
                 };
                 if is_head {
-                    self.obs.told(head);
+                    self.obs.sure(head);
                 }
                 hx::decode_and_verify_responses(&request, &resps).await
             };
@@ -652,6 +665,7 @@ async fn run_node(ctx: &Arc<RunCtx>) {
             last_stored: None,
             last_pruned: None,
             max_told: 0,
+            sure_head: 0,
             announced: Vec::new(),
             batches: 0,
             attempts: BTreeMap::new(),
@@ -747,6 +761,7 @@ async fn run_node(ctx: &Arc<RunCtx>) {
             st.last_stored = None;
             st.last_pruned = None;
             st.max_told = 0;
+            st.sure_head = 0;
             st.announced.clear();
             st.attempts.clear();
             st.ongoing.clear();
@@ -866,6 +881,7 @@ async fn run_node(ctx: &Arc<RunCtx>) {
                         }
                         P2pCommand::InitHeaderSub { head, channel } => {
                             ctx.ev("cmd.init_header_sub", head.height(), 0);
+                            obs.sure(head.height());
                             next_gossip_height = next_gossip_height.max(head.height() + 1);
                             header_sub = Some((*head, channel));
                         }
@@ -927,7 +943,7 @@ async fn run_node(ctx: &Arc<RunCtx>) {
                             *known = decoded.clone();
                             ctx.ev("gossip", h, 0);
                             if ch.try_send(decoded).is_ok() {
-                                obs.told(h);
+                                if faults_on { obs.told(h) } else { obs.sure(h) }
                             }
                         }
                     }
@@ -998,7 +1014,7 @@ async fn run_node(ctx: &Arc<RunCtx>) {
                 let st = obs.st.lock().unwrap();
                 let now_ns = ctx.wall_now_ns();
                 let nh = net.network_head();
-                let settled_head = nh.saturating_sub(2).min(st.max_told);
+                let settled_head = nh.saturating_sub(2).min(st.sure_head);
                 let stored = st.model.stored();
                 let pruned = st.model.pruned.clone();
                 ctx.oracle("C38.converges");
